@@ -1,4 +1,5 @@
 """C16 — unphysical input is rejected or flagged, never silently computed (DESIGN §5 C16)."""
+import math
 import os
 import random
 import re
@@ -45,6 +46,40 @@ def get_entry(text, block, key):
         elif cur == block.upper() and t[0] == key and len(t) > 1:
             val = float(t[1])
     return val
+
+
+def thdm_tree_m2(lam, tb, m122, v2=246.21965 ** 2):
+    """tree-level squared masses (h, H, A, H+) of the CP-conserving 2HDM in the generic basis, independent of the library"""
+    b = math.atan(tb); sb, cb = math.sin(b), math.cos(b)
+    l1, l2, l3, l4, l5, l6, l7 = lam
+    mA = m122 / (sb * cb) - 0.5 * v2 * (2 * l5 + l6 / tb + l7 * tb)
+    mHp = mA + 0.5 * v2 * (l5 - l4)
+    m11 = mA * sb * sb + v2 * (l1 * cb * cb + 2 * l6 * sb * cb + l5 * sb * sb)
+    m22 = mA * cb * cb + v2 * (l2 * sb * sb + 2 * l7 * sb * cb + l5 * cb * cb)
+    m12 = -mA * sb * cb + v2 * ((l3 + l4) * sb * cb + l6 * cb * cb + l7 * sb * sb)
+    tr, disc = m11 + m22, math.sqrt((m11 - m22) ** 2 + 4 * m12 * m12)
+    return 0.5 * (tr - disc), 0.5 * (tr + disc), mA, mHp
+
+
+def gauge_tachyon(t, pattern):
+    """rewrite a gauge-basis THDM input so that its tree-level spectrum is tachyonic in exactly the given way (clear margins: |m^2| > (30 GeV)^2)"""
+    tb = get_entry(t, "MINPAR", "3")
+    if tb is None or get_entry(t, "MASS", "25") is not None:
+        return None
+    rnd = random.Random("%s|%r" % (pattern, tb))
+    M = 900.0
+    for _ in range(200000):
+        lam = [rnd.uniform(-4, 4) for _ in range(5)] + [0.0, 0.0]
+        m122 = rnd.choice([0.0, rnd.uniform(-1, 1) * 1e5])
+        h, H, A, Hp = thdm_tree_m2(lam, tb, m122)
+        if min(abs(h), abs(H), abs(A), abs(Hp)) < M:
+            continue
+        got = ("h>" if (h < 0 and H > 0 and -h > H) else "h<" if (h < 0 and H > 0) else "hH" if h < 0 else "") + ("A" if A < 0 else "") + ("P" if Hp < 0 else "")
+        if got == pattern:
+            for k, v in enumerate(lam):
+                t = set_entry(t, "MINPAR", str(11 + k), repr(v))
+            return set_entry(t, "MINPAR", "18", repr(m122))
+    return None
 
 
 # (name, kind, editor, force_cannot_override) ; kind: input | tachyon
@@ -96,7 +131,11 @@ def defects_for(fmt):
               ("mA<0", "input", lambda t: (set_entry(t, "MASS", "36", "-300") if massbasis(t) else None), False),
               ("mHp<0", "input", lambda t: (set_entry(t, "MASS", "37", "-300") if massbasis(t) else None), False),
               ("mh<0", "input", lambda t: (set_entry(t, "MASS", "25", "-125") if massbasis(t) else None), False),
-              ("tachyon(m12^2<<0)", "tachyon", lambda t: (set_entry(t, "MINPAR", "18", "-1e6") if not massbasis(t) else None), False)]
+              ("tachyon(m12^2<<0)", "tachyon", lambda t: (set_entry(t, "MINPAR", "18", "-1e6") if not massbasis(t) else None), False),
+              ("tachyon(h only, |mh^2|>mH^2)", "tachyon", lambda t: gauge_tachyon(t, "h>"), False),
+              ("tachyon(h only, |mh^2|<mH^2)", "tachyon", lambda t: gauge_tachyon(t, "h<"), False),
+              ("tachyon(A only)", "tachyon", lambda t: gauge_tachyon(t, "A"), False),
+              ("tachyon(H+ only)", "tachyon", lambda t: gauge_tachyon(t, "P"), False)]
     return D
 
 
@@ -109,7 +148,7 @@ def run(chk):
     chk.assumptions = ["the MSSM C interface has no force-output setter: C entry points are exercised without force only",
                        "'massless lightest chargino' cannot be produced exactly through decimal input (|MCha(0)| < 2.2e-16 is required): not injected, counted",
                        "SLHA format: mu, M1, M2, MSOFT 32/35 are only initial guesses of the conversion, so mu=0, M1=0, M2=0 are not injectable there"]
-    n = simple.run(chk, "c16_defects", 200, 4000, HARNESSES["c16_defects"])
+    n = simple.run(chk, "c16_defects", 2400, 60000, HARNESSES["c16_defects"])
     # ---- CLI part
     rnd = random.Random(chk.seed * 104729 + 7)
     binary = chk.build(build.cli, "plain")
